@@ -81,7 +81,7 @@ SPEC = dict(
          "on ONE StripedSequence buffer, DNA and protein, C in 1,2,4,16,32 (generic pipeline) and C=32 through "
          "Pipeline::avx2() and Pipeline::dispatch() with the arm forced to Generic/Sse2/Avx2; lengths 0..40, around "
          "multiples of 32, 992..1100 (around 32*32 where the AVX2 block loop starts), around multiples of 1024, up to "
-         "~3300 (quick) / ~5200 (thorough); wrap widths small, around the row count (look-ahead rows built from "
+         "~3300 (quick) / ~5200, occasionally 6000..12300 (thorough); wrap widths small, around the row count (look-ahead rows built from "
          "look-ahead rows) and large; the thorough tier starts with a sweep of every length 0..1100 through the AVX2 "
          "kernel and the dispatcher's AVX2 arm into a stale buffer. After EVERY op the harness observes len, wrap, "
          "rows, every matrix cell, Index at every position 0..len-1 and at sampled positions up to / beyond the end "
@@ -97,7 +97,7 @@ SPEC = dict(
     trusted_base=[
         "Coq 8.16.1 kernel (coqc; coqchk -o on LMStripe.C04 in the thorough tier); vm_compute in the reflection "
         "lemma about the translated network (NetProofs.net_coords and three forallb facts about the load/store "
-        "lists) and in Example lemmas; no native_compute; all 21 theorems closed under the global context",
+        "lists) and in Example lemmas; no native_compute; all theorems closed under the global context",
         "extraction: ExtrOcamlBasic only (nat, list kept as extracted inductives); OCaml 4.13.1",
         "translator translate/stripe_net.py (regex over avx2.rs::stripe_avx2: unpack! macro arms, 32 loads, "
         "unpack! invocations, 32 stores, the block loop's `while` condition (small expression parser) and its three "
